@@ -318,6 +318,7 @@ instance instBodyNested : ∀ n, LineSafe (bodyNested n)
 
 instance : LineSafe body := by unfold body; infer_instance
 instance : LineSafe msgAttBodyStructure := by unfold msgAttBodyStructure; infer_instance
+instance : LineSafe msgAttBody := by unfold msgAttBody; infer_instance
 
 /-! ### rfc3501/mod.rs -/
 
